@@ -15,7 +15,8 @@ Qed.
 (** ** the en-passant field is sound: the pawn that can be captured is there *)
 Definition EpOK (p : ipos) : Prop :=
   i_ep p = 64 \/
-  (i_ep p < 64 /\ sq_to (i_ep p) (pawn_dir (cflip (i_stm p))) < 64 /\
+  (i_ep p < 64 /\ rank_of (i_ep p) = (if i_stm p =? 0 then 5 else 2) /\
+   sq_to (i_ep p) (pawn_dir (cflip (i_stm p))) < 64 /\
    at_ (i_board p) (sq_to (i_ep p) (pawn_dir (cflip (i_stm p)))) = 8 * cflip (i_stm p) + PAWN).
 
 (** ** state invariant (everything except the key, the game phase and the history) *)
@@ -68,7 +69,8 @@ Record ok_normal : Prop := {
               zabs_diff (rank_of f) (rank_of to) = 2 /\
               let e := sq_to to (pawn_dir (cflip c)) in
               e < 64 /\ e = mk_sq (file_of f) ((rank_of f + rank_of to) / 2) /\
-              sq_to e (pawn_dir c) = to /\ e <> to /\ e <> f }.
+              sq_to e (pawn_dir c) = to /\ e <> to /\ e <> f /\
+              rank_of e = (if c =? 0 then 2 else 5) }.
 
 Record ok_promotion : Prop := {
   op_ty : mtype m = PROMOTION;
@@ -83,6 +85,7 @@ Record ok_enpassant : Prop := {
   oe_ep : to = i_ep p;
   oe_cs : let cs := sq_to to (pawn_dir (cflip c)) in
           cs < 64 /\ cs = mk_sq (file_of to) (rank_of f) /\ cs <> f /\ cs <> to;
+  oe_cbs : castling_by_square f = 0 /\ castling_by_square to = 0;
   oe_rank : zabs_diff (rank_of f) (rank_of to) <> 2 }.
 
 (* (king from, king to, rook from, rook to, colour) *)
@@ -248,7 +251,8 @@ Qed.
 (* WF of a finished move from the pieces *)
 Lemma wf_turn t X p : WF t p -> Coh t X -> i_stm X = i_stm p -> i_nhm X = i_nhm p ->
   i_cr X <= i_cr p -> (0 <= i_hmc X)%Z ->
-  (i_ep X = 64 \/ (i_ep X < 64 /\ sq_to (i_ep X) (pawn_dir (i_stm p)) < 64 /\
+  (i_ep X = 64 \/ (i_ep X < 64 /\ rank_of (i_ep X) = (if i_stm p =? 0 then 2 else 5) /\
+                   sq_to (i_ep X) (pawn_dir (i_stm p)) < 64 /\
                    at_ (i_board X) (sq_to (i_ep X) (pawn_dir (i_stm p))) = 8 * i_stm p + PAWN)) ->
   WF t (turn t 1 X).
 Proof.
@@ -259,7 +263,9 @@ Proof.
   - pose proof (w_cr _ _ W). lia.
   - exact Hh.
   - rewrite Es, En. fold (cflip (i_stm p)). rewrite cflip_val by assumption. split; lia.
-  - unfold EpOK. psimpl. rewrite Es. fold (cflip (i_stm p)). rewrite cflip_cflip. exact He.
+  - unfold EpOK. psimpl. rewrite Es. fold (cflip (i_stm p)). rewrite cflip_cflip.
+    destruct He as [He|(H1' & H2' & H3')]; [left; exact He|right]. split; [exact H1'|]. split; [|exact H3'].
+    rewrite H2'. assert (i_stm p = 0 \/ i_stm p = 1) as [-> | ->] by lia; reflexivity.
 Qed.
 
 Lemma ldiff_le a b' : N.ldiff a b' <= a.
